@@ -90,8 +90,7 @@ def setup():
 NATIVE = {
     "linux": ["proc_ioprio_get", "proc_ioprio_set", "proc_cpu_affinity_get", "proc_cpu_affinity_set", "disk_partitions", "users",
               "net_if_duplex_speed", "linux_sysinfo", "check_pid_range", "set_debug"],
-    "posix": ["getpagesize", "getpriority", "net_if_addrs", "net_if_flags", "net_if_is_running", "net_if_mtu", "setpriority",
-              "net_if_duplex_speed"],
+    "posix": ["getpagesize", "getpriority", "net_if_addrs", "net_if_flags", "net_if_is_running", "net_if_mtu", "setpriority"],
 }
 SETTERS = {"proc_ioprio_set", "proc_cpu_affinity_set", "setpriority"}
 WRAPPERS = ["Process", "pid_exists", "ionice", "cpu_affinity", "nice", "rlimit", "disk_usage", "net_connections", "Process_getters"]
@@ -133,6 +132,14 @@ def run_native_fuzz(shard, acc):
     env = setup()
     mod = env["cext"] if shard["mod"] == "linux" else env["cposix"]
     fname = shard["fn"]
+    if fname == "*rest*":
+        # any entry point this build exposes beyond the listed ones (keeps the fuzz complete if one is added)
+        rest = [n for n in dir(mod) if callable(getattr(mod, n)) and not n.startswith("_") and n not in NATIVE[shard["mod"]]]
+        acc.extra.setdefault("unlisted_entry_points", {})[shard["mod"]] = rest
+        for n in rest:
+            run_native_fuzz(dict(shard, fn=n), acc)
+        acc.count("native_calls", 0)
+        return
     fn = getattr(mod, fname)
     child = env["child"].pid
     rng = harness.rng_for(shard["seed"], "c17a", shard["mod"], fname)
@@ -646,6 +653,8 @@ def plan(tier, seed):
     for mod, fns in NATIVE.items():
         for fn in fns:
             shards.append(dict(kind="native", mod=mod, fn=fn, seed=seed, n2=500 if tier == "quick" else 20000, n3=500 if tier == "quick" else 40000))
+    for mod in NATIVE:
+        shards.append(dict(kind="native", mod=mod, fn="*rest*", seed=seed, n2=300, n3=300))
     for fn in WRAPPERS:
         shards.append(dict(kind="wrapper", fn=fn, seed=seed))
     nu = 1600 if tier == "quick" else 60000
